@@ -32,12 +32,14 @@ CONFIG = dict(
         level_text='Coq proofs: CountLines = number of lines the diff splits the same bytes into, for every non-binary byte string; the script '
                    'validator is sound and complete for "valid canonical edit script"; every validated script is accepted by the model of '
                    'handleModification (no integrity/shape error, no File.Update panic, result length = new count) and conserved by the model '
-                   'of LinesStatsCalculator; WhitespaceIgnore changes the count exactly for blobs whose last line is non-empty and all spaces '
-                   '(C11_strip_refuted, finding F9). Translation validation: each diff produced by the third-party engine is checked by the '
+                   'of LinesStatsCalculator; the count FileDiff reports equals CountLines for both values of WhitespaceIgnore; before commit 3944bd2 '
+                   'WhitespaceIgnore changed the count exactly for blobs whose last line is non-empty and all spaces '
+                   '(finding F9, repaired: C11_strip_refuted_before_fix; the repaired function agrees on every blob: C11_counts_agree). Translation validation: each diff produced by the third-party engine is checked by the '
                    'extracted validator.',
         level_note='Modelled, not verified: the Go code (tie = replay of every case, zero mismatches required). Not modelled at all: the Myers/'
                    'cleanup engine of sergi/go-diff, whose outputs are validated case by case (so "for every pair of blobs the diff is valid" is '
-                   'established only for the generated pairs; found false for pairs with more than 55 295 distinct lines, finding F13). The '
+                   'established only for the generated pairs; it was found false for pairs with more than 55 295 distinct lines, finding F15, repaired '
+                   'by 742df3d, and the engine sometimes emits empty runs, which the property allows and the theorems cover). The '
                    'consumer is proved over the abstract array semantics of File.Update (C03 proves the tracker refines it).',
         technique='machine-checked proof in Coq over a Gallina model + model/implementation correspondence replay + proved-sound-and-complete '
                   'validator for the third-party diff output (translation validation)',
